@@ -39,8 +39,8 @@ type Op struct {
 
 	Multi        bool   `json:"multi,omitempty"`
 	SkipDefaults bool   `json:"skip_defaults,omitempty"`
-	Regex        string `json:"regex,omitempty"` // "" | any (a custom compiler whose matcher accepts everything) | none (rejects everything)
-	Auth         string `json:"auth,omitempty"`  // ok | fail | read_ok
+	Regex        string `json:"regex,omitempty"` // "" | any (a custom compiler whose matcher accepts everything) | none (rejects everything) | panic
+	Auth         string `json:"auth,omitempty"`  // ok | fail | read_ok | panic
 
 	Status      int         `json:"status,omitempty"`
 	RespHeaders [][2]string `json:"resp_headers,omitempty"`
@@ -152,6 +152,8 @@ func (o Op) options() *openapi3filter.Options {
 		opts.RegexCompiler = func(string) (openapi3.RegexMatcher, error) { return anyMatcher{true}, nil }
 	case "none":
 		opts.RegexCompiler = func(string) (openapi3.RegexMatcher, error) { return anyMatcher{false}, nil }
+	case "panic": // a callback that crashes inside the library call: no other caller may notice
+		opts.RegexCompiler = func(string) (openapi3.RegexMatcher, error) { panic("regex compiler crashed") }
 	}
 	mode := o.Auth
 	opts.AuthenticationFunc = func(_ context.Context, in *openapi3filter.AuthenticationInput) error {
@@ -162,6 +164,9 @@ func (o Op) options() *openapi3filter.Options {
 		}
 		if mode == "fail" {
 			return errors.New("rejected")
+		}
+		if mode == "panic" {
+			panic("authentication callback crashed")
 		}
 		return nil
 	}
